@@ -60,6 +60,13 @@ SetObservers(s) == /\ members' = s
                    /\ outcome' = "ok"
                    /\ UNCHANGED <<val, name, nobs>> /\ Log([op |-> "set_observers", s |-> s])
 
+\* the caller keeps and later mutates the very list it assigned to group.observers (appends a foreign object, or clears it),
+\* or mutates the sequence a read returned: the group's membership is its own and must not change
+CallerMutatesList(how) ==
+    /\ \E i \in 1..Len(hist) : hist[i].op \in {"set_observers", "init"}
+    /\ outcome' = "ok"
+    /\ UNCHANGED <<members, val, name, parent, nobs>> /\ Log([op |-> "caller_mutates_list", how |-> how])
+
 \* group.<attr> = v   (a single value): every member gets it
 AssignScalar(a, v) == /\ val' = [val EXCEPT ![a] = [o \in Obs |-> IF o \in Rng(members) THEN v ELSE @[o]]]
                       /\ outcome' = "ok"
@@ -107,6 +114,7 @@ NextStep ==
   \/ \E o \in Obs : Add(o)
   \/ AddWrongType
   \/ \E s \in Perms(Obs) : SetObservers(s)
+  \/ \E how \in {"append_to_assigned", "clear_assigned", "append_to_returned"} : CallerMutatesList(how)
   \/ \E a \in Attrs, v \in Vals : AssignScalar(a, v)
   \/ \E a \in Attrs, k \in Kinds :
         \/ \E vs \in [1..Len(members) -> Vals] : AssignSeq(a, vs, k)
